@@ -350,6 +350,22 @@ func splitTopLevel(s string, sep byte) []string {
 	return append(parts, s[last:])
 }
 
+// guarded evaluates the right operand of "a && b" / "a ==> b". If b cannot be evaluated on this path (it
+// talks about a recorded call that did not happen here, say) and a cannot hold on this path either, b is
+// irrelevant: ok is false and the caller takes the value the connective has for a false left operand.
+func (e *SpecEnv) guarded(a Term, y ast.Expr) (t Term, ok bool) {
+	defer func() {
+		if r := recover(); r != nil {
+			if _, isSpec := r.(specError); isSpec && e.st != nil && !e.x.feasible(e.st, a) {
+				t, ok = Term{}, false
+				return
+			}
+			panic(r)
+		}
+	}()
+	return e.term(e.eval(y)), true
+}
+
 func parseSpec(text string) (ast.Expr, error) {
 	return parser.ParseExpr(rewriteImplies(text))
 }
@@ -778,7 +794,11 @@ func (e *SpecEnv) binary(n *ast.BinaryExpr) TV {
 		if a.IsFalse() {
 			return TV{VScalar{TFalse}, boolT}
 		}
-		return TV{VScalar{And(a, e.term(e.eval(n.Y)))}, boolT}
+		b, ok := e.guarded(a, n.Y)
+		if !ok {
+			return TV{VScalar{TFalse}, boolT}
+		}
+		return TV{VScalar{And(a, b)}, boolT}
 	case token.LOR:
 		a := e.term(e.eval(n.X))
 		if a.IsTrue() {
@@ -910,7 +930,11 @@ func (e *SpecEnv) call(n *ast.CallExpr) TV {
 		if a.IsFalse() {
 			return TV{VScalar{TTrue}, boolT}
 		}
-		return TV{VScalar{Implies(a, e.term(e.eval(n.Args[1])))}, boolT}
+		b, ok := e.guarded(a, n.Args[1])
+		if !ok {
+			return TV{VScalar{TTrue}, boolT}
+		}
+		return TV{VScalar{Implies(a, b)}, boolT}
 	case "ite":
 		c := e.term(e.eval(n.Args[0]))
 		return TV{specTerm{Ite(c, e.term(e.eval(n.Args[1])), e.term(e.eval(n.Args[2])))}, nil}
